@@ -195,6 +195,29 @@ func c17Scenarios(batch int) []Scenario {
 			}
 			cancel()
 		}})
+	// T5: tail-side DeleteRange racing with two separate appends at the head
+	out = append(out, Scenario{Name: "T5-tail-delete-vs-two-appends", Batch: batch, Preload: 2,
+		Build: func(e *Env) {
+			e.Thread("W", func() {
+				_ = e.St.Append(bg, e.C[3])
+				_ = e.St.Append(bg, e.C[4])
+			})
+			e.Thread("D", func() {
+				ctx, cancel := context.WithTimeout(bg, time.Minute)
+				defer cancel()
+				e.Note("derr", e.St.DeleteRange(ctx, 1, 2))
+			})
+			c17Reader(e, "R", 2)
+		},
+		Check: func(e *Env, x *Exec, viol func(string, string, ...any)) {
+			if err, _ := e.Get("derr").(error); err != nil {
+				viol("tail-delete-failed", "DeleteRange(1,2) racing with appends failed: %v", err)
+				x.Outcome = "delete-error"
+				return
+			}
+			x.Outcome = checkReader(e, "R", viol)
+			finalState(e, 2, 4, viol)
+		}})
 	if thoroughTier {
 		out = append(out, Scenario{Name: "T4-three-writers-out-of-order", Batch: batch, Preload: 2,
 			Build: func(e *Env) {
